@@ -11,7 +11,7 @@ def one(p):
                 for i in l:
                     if i not in ids: ids.append(i)
     tmp = tempfile.mkdtemp(prefix='ben.', dir='/tmp')
-    subprocess.run('cp -r /repo/. %s/ && rm -rf %s/.git' % (tmp,tmp), shell=True, check=True)
+    subprocess.run('rsync -a --exclude .git /repo/ %s/' % (tmp,), shell=True, check=True)
     r = subprocess.run(['patch','-p1','-s','-i',p], cwd=tmp, capture_output=True, text=True)
     res=[]
     if r.returncode!=0:
